@@ -196,7 +196,7 @@ class Check:
 
     def run_model(self, cases, timeout=900):
         """Runs the extracted model over the cases file. Returns (mismatch lines, summary)."""
-        rc, out = sh(f"(ulimit -s unlimited 2>/dev/null || ulimit -s 4000000 2>/dev/null); timeout {timeout} {VERIF}/ocaml/modelrun {cases}", timeout=timeout + 30)  # deep recursion of the extracted codec on 64 kB payloads
+        rc, out = sh(f"ulimit -s unlimited 2>/dev/null || ulimit -s 4000000 2>/dev/null; timeout {timeout} {VERIF}/ocaml/modelrun {cases}", timeout=timeout + 30)  # deep recursion of the extracted codec on 64 kB payloads
         mism = [l for l in out.splitlines() if l.startswith("MISMATCH")]
         summ = [l for l in out.splitlines() if l.startswith("SUMMARY")]
         if rc not in (0, 3) or not summ:
